@@ -129,6 +129,9 @@ class TcpDC:
             threading.Thread(target=self._serve, args=(c, logical), daemon=True).start()
 
     def _serve(self, c: socket.socket, logical: int) -> None:
+        from vf.instruments.monitors import NET
+
+        NET.exempt_threads.add(threading.get_ident())
         conn = self.core.new_connection(logical)
         try:
             while True:
